@@ -352,6 +352,46 @@ func modSqrtRule(P *Program, R *Report) {
 			}
 		}
 	}
+	if !okCrt {
+		// the end of the loop body moved into a new unexported helper (`res = crtExtend(res, n, root, fac, i == 0)`):
+		// the same two calls inside it, with its parameters bound; the helper is called in every iteration and
+		// multiplies on every path through it
+		for _, ci := range callsIn(fn) {
+			g := staticCallee(ci)
+			hc, isCall := ci.(*ssa.Call)
+			if g == nil || !isCall || g.Blocks == nil || !newHelper(g) || innermostLoopOf(hc.Block()) == nil {
+				continue
+			}
+			bindCall(ci, g, func() {
+				for _, c := range callsIn(g) {
+					call, isC := c.(*ssa.Call)
+					if !isC || !calleeIs(c, "common.Crt") {
+						continue
+					}
+					d3 := desc(callArgs(call)[3])
+					if d3 != "arg#1[#i]" && d3 != "arg#1[*]" {
+						continue
+					}
+					okCrt = true
+					for _, c2 := range callsIn(g) {
+						if bigMethod(c2) != "Mul" || siteOf(callArgs(c2)[0]) != siteOf(callArgs(call)[1]) {
+							continue
+						}
+						a2 := callArgs(c2)
+						if siteOf(a2[1]) != siteOf(a2[0]) || desc(a2[2]) != d3 {
+							continue
+						}
+						mul := c2.(*ssa.Call)
+						inHelper := (&MustPass{P: P, NoInterproc: true, Instr: func(_ *ssa.Function, i ssa.Instruction) bool { return i == ssa.Instruction(mul) }}).Check(g, AcceptAny())
+						everyIter := (&MustPass{P: P, NoInterproc: true, Instr: func(_ *ssa.Function, i ssa.Instruction) bool { return i == ssa.Instruction(hc) }}).ForAllBody(fn, innermostLoopOf(hc.Block()), AcceptTrue(1), false)
+						if inHelper.Holds && everyIter.Holds {
+							okProd = true
+						}
+					}
+				}
+			})
+		}
+	}
 	R.decide(rule, k+":recombined", "partial roots are combined by Crt(res, n, root, factor)", okCrt, "", P.Pos(fn.Pos()))
 	R.decide(rule, k+":running-product", "n is multiplied by the factor in every iteration (n = product of the factors seen)", okProd, "", P.Pos(fn.Pos()))
 }
